@@ -318,6 +318,29 @@ def conforming_script(rng, L, ast, ri=0, maxlen=60):
     return ",".join("%d.%s" % (ri, c) for c in calls[:maxlen + 5])
 
 
+def replay_script(rng, L, ast, ri=0):
+    """read up to the end of a section, seek back to its start, read it to its end AGAIN, then seek to and read the
+    later sections: the lazily learned section offsets must survive a replayed section"""
+    secs = [0, 0, 0]
+    for m in L.marks:
+        secs[m["section"]] += 1
+    calls = ["header", rng.choice(["skipq", "seek:0"])] if rng.random() < 0.6 else ["header"] + [rng.choice(["q", "qref"]) for _ in ast["qd"]]
+    rec = lambda: [g1(rng), rng.choice(["?skipd:L", "?skipd:L", "?bytes:L"])]
+    s = rng.choice([0, 0, 1])
+    for _ in range(sum(secs[:s + 1])):
+        calls += rec()
+    calls.append("seek:%d" % s)
+    for _ in range(secs[s]):
+        calls += rec()
+    for t in ([s + 1, 2] if s == 0 else [2]):
+        calls.append(rng.choice(["seek:%d" % t, "seek:%d" % t, "rcountin:%d" % t]))
+    calls.append("seek:%d" % rng.choice([s + 1, 2]))
+    for _ in range(sum(secs)):
+        calls += rec()
+    calls += ["rcount", "seek:%d" % rng.choice([0, 1, 2])]
+    return ",".join("%d.%s" % (ri, c) for c in calls[:90])
+
+
 def misuse_script(rng, nreaders, maxlen=40):
     """non-conforming: any call in any order on any reader, markers/namerefs shared"""
     calls = []
@@ -352,7 +375,11 @@ def gen_scripts(rng, n, maxlen=60):
     tags = {}
     for i in range(n):
         msg, ast, L, tag = gen_message(rng)
-        sc = conforming_script(rng, L, ast, 0, maxlen)
+        if i % 10 == 7 and L and ast and len(L.marks) <= 14:
+            sc = replay_script(rng, L, ast, 0)
+            tag = tag + "+replay"
+        else:
+            sc = conforming_script(rng, L, ast, 0, maxlen)
         tags[tag] = tags.get(tag, 0) + 1
         out.append("s%d script 1 %s %s" % (i, hx(msg), sc))
     return out, tags
